@@ -125,6 +125,9 @@ type vWorld struct {
 	storeFailed    bool
 	lastTimeoutCtx context.Context
 	spendAttempts  int
+	// a csv / coop / preimage spend was attempted while a retransmitter of the announcement was registered
+	msgMgrRef                *vMsgManager
+	spendWhileRetransmitting bool
 	effectStale    bool
 	staleAt        string
 	interleaved    bool
@@ -375,6 +378,9 @@ func (w *vWallet) CreateOpeningTransaction(p *OpeningParams) (string, string, st
 func (w *vWallet) spend(kind string) (string, string, string, error) {
 	w.w.noteEffect("wallet_spend")
 	w.w.spendAttempts++
+	if w.w.msgMgrRef != nil && len(w.w.msgMgrRef.senders) > 0 {
+		w.w.spendWhileRetransmitting = true
+	}
 	zzverif.Effect("wallet_spend_" + kind)
 	if w.w.fault("spend.err") {
 		return "", "", "", errors.New("spend failed")
@@ -810,6 +816,7 @@ func newEnv(bitcoinEnabled, liquidEnabled bool) *vEnv {
 	w.storeRef = st
 	pol := newPolicy(w)
 	mm := &vMsgManager{w: w, senders: map[string]messages.StoppableMessenger{}}
+	w.msgMgrRef = mm
 	sv := NewSwapServices(st, &vReqStore{w: w}, &vLightning{w: w}, &vMessenger{w: w}, mm, pol,
 		bitcoinEnabled, &vWallet{w: w, chain: btc_chain, net: vBtcNetwork}, &vValidator{w: w, csv: 1008}, &vWatcher{w: w, chain: btc_chain},
 		liquidEnabled, &vWallet{w: w, chain: l_btc_chain, asset: vLiquidAsset}, &vValidator{w: w, csv: 60}, &vWatcher{w: w, chain: l_btc_chain},
